@@ -3,10 +3,10 @@
    nat, N, Z, positive, byte stay the Coq inductives.  No Extract Constant of our own.
    Run coqc from the directory that should receive model.ml / model.mli. *)
 From Coq Require Import Extraction ExtrOcamlBasic.
-From Slim Require Import Base Keys Model.
+From Slim Require Import Base Keys Model Flat.
 Extraction Language OCaml.
 Extraction "model.ml"
   Byte.of_N Byte.to_N N.of_nat N.to_nat
   Keys.nibs Keys.bytes_cmp
   Model.normalize Model.build Model.getid Model.get Model.rangeget Model.search Model.searchid
-  Model.node_views Model.tree_id.
+  Model.node_views Model.tree_id Flat.fgetid.
